@@ -39,7 +39,7 @@ def _basic_equal(a, b, depth=0):
         return len(a) == len(b) and all(_basic_equal(x, y, depth + 1) for x, y in zip(a, b))
     if type(a) is type(b) and isinstance(a, dict):
         return a.keys() == b.keys() and all(_basic_equal(a[k], b[k], depth + 1) for k in a)
-    if type(a) is type(b) and isinstance(a, (set, frozenset)):
+    if type(a) is type(b) and type(a) is set:      # list/tuple/dict/set are the container kinds meant; others are EITHER
         return a == b and all(_basic_equal(x, x, depth + 1) for x in a)
     return False
 
